@@ -13,8 +13,8 @@ SPECDIR = os.path.join(vf.SPEC, "coin")
 
 META = dict(
     technique="TLA+ state machine of the random coin over symbolic hash terms, model-checked by TLC; seeded random call histories recorded on the real DefaultRandomCoin through a logging hasher and validated event by event by TLC against the same machine (trace validation)",
-    text="Design level: for every history of up to 3 (4) calls over two model fields TLC checks that equal histories give equal states and results, that replacing one reseed digest makes every later result come from a different digest, that no result digest is used twice, that integer draws return exactly n values below the domain size and that the counter is reset by reseeding. Implementation level: every public call (new, reseed, draw over base/quadratic/cubic elements, draw_integers, check_leading_zeros) of recorded histories over 18 hasher/field instantiations plus a harness-defined transparent-head hasher (merge_with_int output begins with the integer, so check_leading_zeros is validated on every count 0..64) is explained by the machine using the hasher calls the coin made; drawn elements are valid per coordinate, integers are the masked first 8 bytes, leading-zeros is the trailing-zero count of the first 8 bytes of merge_with_int(seed, nonce); two identical runs are event-for-event equal and a run with one reseed digest replaced reads all later results from different digests.",
-    note="Hash functions are treated as collision-free (digests are interned ids); the machine's hashes are looked up among the calls the coin made through the Hasher/ElementHasher traits, so a coin that obtained the same digests without calling H::merge / H::merge_with_int / H::hash_elements would be rejected. Domain sizes <= 2^24, n <= 255 (TLC integers are 32-bit); documented panics of draw_integers (size not a power of two, n >= size) are preconditions of the generator.",
+    text="Design level: for every history of up to 3 (4) calls over two model fields TLC checks that equal histories give equal states and results, that replacing one reseed digest makes every later result come from a different digest, that no result digest is used twice, that integer draws return exactly n values below the domain size and that the counter is reset by reseeding. Implementation level: every public call (new, reseed, draw over base/quadratic/cubic elements, draw_integers, check_leading_zeros) of recorded histories over 18 hasher/field instantiations plus a harness-defined transparent-head hasher (merge_with_int output begins with the integer times an odd constant, so check_leading_zeros is validated on every count 0..64 and integer draws have high bits set) is explained by the machine using the hasher calls the coin made; drawn elements are valid per coordinate, integers are the masked first 8 bytes, leading-zeros is the trailing-zero count of the first 8 bytes of merge_with_int(seed, nonce); two identical runs are event-for-event equal and a run with one reseed digest replaced reads all later results from different digests.",
+    note="Hash functions are treated as collision-free (digests are interned ids); the machine's hashes are looked up among the calls the coin made through the Hasher/ElementHasher traits, so a coin that obtained the same digests without calling H::merge / H::merge_with_int / H::hash_elements would be rejected. Domain sizes 2..2^63 and drawn integers are 8-byte little-endian arrays (TLC integers are 32-bit), masking is byte arithmetic; n <= 255 (1000/1001 in the thorough tier); documented panics of draw_integers (size not a power of two, n >= size) are preconditions of the generator.",
     design="7/C20")
 
 MOD = {"f64": 2**64 - 2**32 + 1, "f62": 2**62 - 111 * 2**39 + 1, "f128": 2**128 - 45 * 2**40 + 1,
@@ -39,7 +39,7 @@ def le(v, n):
     return list(int(v).to_bytes(n, "little"))
 
 
-def gen_history(rng, hid, h, f, maxlen, err_draws=1):
+def gen_history(rng, hid, h, f, maxlen, err_draws=1, nmax=255):
     p, w = MOD[f], WIDTH[f]
     toy = f.startswith("t")
     nseed = rng.choice([0, 1, 1, 2, 3, 4, 8])
@@ -62,11 +62,11 @@ def gen_history(rng, hid, h, f, maxlen, err_draws=1):
                     deg = 1
             ops.append({"op": "draw", "deg": deg})
         elif k == "ints":
-            bits = rng.choice([1, 2, 3, 5, 8, 10, 16, 20, 24, rng.randint(1, 24)])
+            bits = rng.choice([1, 2, 3, 5, 8, 10, 16, 20, 24, 31, 32, 33, 40, 56, 62, 63, rng.randint(1, 63), rng.randint(25, 63)])
             size = 1 << bits
-            n = rng.choice([1, 1, 2, 3, 7, rng.randint(1, 40), rng.randint(1, 255), 255, size - 1])
-            n = max(1, min(n, size - 1, 255))
-            ops.append({"op": "ints", "n": n, "size": size, "nonce": le(rng.choice(NONCES + [rng.randrange(2**64)]), 8)})
+            n = rng.choice([1, 1, 2, 3, 7, rng.randint(1, 40), rng.randint(1, nmax), nmax, size - 1])
+            n = max(1, min(n, size - 1, nmax))
+            ops.append({"op": "ints", "n": n, "size": le(size, 8), "nonce": le(rng.choice(NONCES + [rng.randrange(2**64)]), 8)})
         else:
             ops.append({"op": "lz", "nonce": le(rng.choice(NONCES + [rng.randrange(2**64), rng.randrange(2**16)]), 8)})
     # every history has every kind of call (and, when allowed, one failing toy-extension draw)
@@ -74,7 +74,7 @@ def gen_history(rng, hid, h, f, maxlen, err_draws=1):
     if "draw" not in have:
         ops.append({"op": "draw", "deg": 1})
     if "ints" not in have:
-        ops.append({"op": "ints", "n": 3, "size": 16, "nonce": le(rng.choice(NONCES), 8)})
+        ops.append({"op": "ints", "n": 3, "size": le(1 << rng.choice([4, 36, 63]), 8), "nonce": le(rng.choice(NONCES), 8)})
     if "lz" not in have:
         ops.append({"op": "lz", "nonce": le(rng.choice(NONCES), 8)})
     if toy and err_draws > 0 and draws == 0:
@@ -96,8 +96,10 @@ def gen_lz_sweep(rng, hid, h, f):
     rng.shuffle(counts)
     nonces = [0 if k == 64 else ((2 * rng.randrange(2 ** (63 - k)) + 1) << k) for k in counts]
     between = [{"op": "reseed", "data": [rng.randrange(256) for _ in range(4)]}, {"op": "draw", "deg": 1},
-               {"op": "ints", "n": 5, "size": 1 << rng.randint(3, 24), "nonce": le(rng.randrange(2**64), 8)},
-               {"op": "draw", "deg": 2}, {"op": "reseed", "data": [3]}]
+               {"op": "ints", "n": 9, "size": le(1 << 63, 8), "nonce": le(rng.randrange(2**64), 8)},
+               # toy extension draws practically always end in the 1000-candidate error: base draws only there
+               {"op": "draw", "deg": 1 if f.startswith("t") else 2}, {"op": "reseed", "data": [3]},
+               {"op": "ints", "n": 7, "size": le(1 << rng.randint(33, 62), 8), "nonce": le(rng.randrange(2**64), 8)}]
     ops = []
     for i, x in enumerate(nonces):
         ops.append({"op": "lz", "nonce": le(x, 8)})
@@ -139,7 +141,7 @@ def describe(events, k):
         cls = "n=0" if e["n"] == 0 else ("n>1000" if e["n"] > 1000 else "n>=1")
         got = "returned %s with %d values" % (e["r"]["t"], len(e["r"]["v"])) if e["r"]["t"] == "ok" else e["r"]["t"]
         sig = "%s.draw_integers %s %s" % (name, cls, "wrong-count" if (e["r"]["t"] == "ok" and len(e["r"]["v"]) != e["n"]) else "mismatch")
-        desc = "draw_integers(n=%d, domain_size=%d, nonce=%s) %s" % (e["n"], e["size"], e["nonce"], got)
+        desc = "draw_integers(n=%d, domain_size=%d, nonce=%s) %s" % (e["n"], int.from_bytes(bytes(e["size"]), "little"), e["nonce"], got)
     elif what == "draw":
         sig = "%s.draw deg=%d %s" % (name, e["deg"], e["r"]["t"])
         desc = "draw of a degree-%d element returned %s, not what the coin machine gives for the logged hasher outputs" % (e["deg"], json.dumps(e["r"]))
@@ -245,30 +247,31 @@ def run(ck, tier):
         ntoy += f.startswith("t")
         for _ in range(per_combo):
             hid += 1
-            # quick tier: failing 1000-candidate draws only in the first two toy instantiations
-            hists.append(gen_history(ck.rng, hid, h, f, maxlen, err_draws=1 if (thorough or ntoy <= 2) else 0))
+            # quick tier: a failing 1000-candidate draw only in the first toy instantiation, n <= 100
+            hists.append(gen_history(ck.rng, hid, h, f, maxlen, err_draws=1 if (thorough or ntoy == 1) else 0,
+                                     nmax=255 if thorough else 100))
     for (h, f) in SWEEP_COMBOS:
         hid += 1
         hists.append(gen_lz_sweep(ck.rng, hid, h, f))
-    # the integer draw with zero requested values: a tiny history of its own, recorded and validated apart
-    # from the others so that it cannot hide anything else
+    # the integer draw with zero requested values: a tiny history of its own at the end of the trace (after a
+    # rejection validation resumes at the next history, so it hides nothing and nothing hides it)
     hid += 1
     zero = [{"hid": hid, "h": "b256", "f": "f128", "seed": [le(1, 16)],
-             "ops": [{"op": "reseed", "data": [1]}, {"op": "ints", "n": 0, "size": 8, "nonce": le(0, 8)},
+             "ops": [{"op": "reseed", "data": [1]}, {"op": "ints", "n": 0, "size": le(8, 8), "nonce": le(0, 8)},
                      {"op": "draw", "deg": 1}],
              "div": 2, "alt": [2]}]
     if thorough:
         # exactly 1000 integers is the most one call can return; 1001 is the documented error
         hid += 1
         hists.append({"hid": hid, "h": "sha3", "f": "f64", "seed": [le(5, 8)],
-                      "ops": [{"op": "reseed", "data": [9]}, {"op": "ints", "n": 1000, "size": 1024, "nonce": le(7, 8)},
-                              {"op": "draw", "deg": 2}, {"op": "ints", "n": 1001, "size": 2048, "nonce": le(2**64 - 1, 8)},
+                      "ops": [{"op": "reseed", "data": [9]}, {"op": "ints", "n": 1000, "size": le(1024, 8), "nonce": le(7, 8)},
+                              {"op": "draw", "deg": 2}, {"op": "ints", "n": 1001, "size": le(1 << 63, 8), "nonce": le(2**64 - 1, 8)},
                               {"op": "draw", "deg": 1}, {"op": "lz", "nonce": le(1001, 8)}],
                       "div": 2, "alt": [10]})
     t0 = time.time()
+    hists = hists + zero
     events, summary = record(binary, hists, "rec")
-    zevents, zsummary = record(binary, zero, "zero")
-    ck.require(summary["histories"] == len(hists) and zsummary["histories"] == 1, "recorder dropped histories")
+    ck.require(summary["histories"] == len(hists), "recorder dropped histories")
     kinds = {}
     for e in events:
         key = e["e"] + ("/" + e["r"]["t"] if e["e"] in ("draw", "ints") else "")
@@ -292,16 +295,29 @@ def run(ck, tier):
                         v = int.from_bytes(bytes(o["nonce"]), "little")
                         nonce_tz.add(64 if v == 0 else (v & -v).bit_length() - 1)
         ck.require(nonce_tz == expected_nonce_counts, "leading-zeros sweep over %s<%s> misses digest heads with some trailing-zero count" % hf)
+    # vacuity: integer draws over domains of at least 2^40 where the digest heads the values are read from
+    # (hasher outputs, logged facts -- not what the coin returned) have bits 32..39 set, so that the expected
+    # values exceed 2^32; with real hashers and with the transparent-head hasher; and the largest domain 2^63
+    wide = {"real": 0, "thead": 0}
+    top = 0
+    for e in events:
+        if e["e"] == "begin":
+            cur = (e["h"], e["f"])
+        elif e["e"] == "ints":
+            sz = int.from_bytes(bytes(e["size"]), "little")
+            top += sz == 1 << 63
+            if sz >= 1 << 40 and any(x["fn"] == "mi" and x["ob"][4] != 0 for x in e["hf"][1:]):
+                wide["thead" if cur[0] == "thead" else "real"] += 1
+    ck.require(wide["real"] > 0 and wide["thead"] > 0, "no integer draw over a domain >= 2^40 read from a digest head with bits above 2^32: %s" % wide)
+    ck.require(top > 0, "no integer draw over the domain 2^63")
     retried = sum(1 for e in events if e["e"] == "draw" and e["r"]["t"] == "ok" and len(e["hf"]) >= 2)
     ck.require(retried > 0, "no draw that succeeded after a rejected candidate")
     t1 = time.time()
     nrej = validate(ck, events, hists, "coin")
     t2 = time.time()
-    nrej += validate(ck, zevents, zero, "coin-zero")
-    ncalls = sum(1 for e in events + zevents if e["e"] not in ("begin", "end"))
-    hists = hists + zero
+    ncalls = sum(1 for e in events if e["e"] not in ("begin", "end"))
     ck.traces += 3 * len(hists)
-    ck.part("timing", record_s=round(t1 - t0, 1), validate_s=round(t2 - t1, 1), validate_zero_s=round(time.time() - t2, 1))
+    ck.part("timing", record_s=round(t1 - t0, 1), validate_s=round(t2 - t1, 1))
     ck.evaluations += ncalls
     for e in events:
         if e["e"] == "draw" and e["r"]["t"] == "ok" and 2 <= len(e["hf"]) <= 3:
@@ -314,10 +330,11 @@ def run(ck, tier):
     ck.part("recorded", histories=len(hists), runs=3 * len(hists), coin_calls=ncalls, hasher_calls=summary["hash_facts"],
             events_by_kind=kinds, draws_accepted_after_rejection=retried, rejected_events=nrej,
             instantiations=["%s<%s>" % (HNAME[h], f) for h, f in COMBOS + SWEEP_COMBOS],
+            integer_draws_with_values_above_2_32=wide, integer_draws_over_domain_2_63=top,
             leading_zero_counts_reported={"%s<%s>" % (HNAME[h], f): sorted(v) for (h, f), v in lz_counts.items()
                                           if (h, f) in SWEEP_COMBOS})
     ck.bounds = {"design": "histories <= %d calls, model fields m97/m251 (1-byte elements), MaxTries scaled to 3" % (4 if thorough else 3),
-                 "recorded": "%d histories x 3 runs, <= %d calls each, 18 real + 4 transparent-head hasher/field instantiations, domain sizes 2..2^24, n <= 255, nonces incl. 0 and 2^64-1" % (len(hists), maxlen)}
+                 "recorded": "%d histories x 3 runs, <= %d calls each, 18 real + 4 transparent-head hasher/field instantiations, domain sizes 2..2^63 (8-byte arrays), n <= 100 (255 thorough), nonces incl. 0 and 2^64-1" % (len(hists), maxlen)}
     ck.exhaustive = False
     ck.assumptions = ["hash functions are collision free on the observed inputs (digests interned to ids)",
                       "the coin reaches its hashes through the Hasher / ElementHasher traits",
